@@ -4,9 +4,9 @@ import os, json, shutil
 import qv, hist
 
 
-def build_case(cid, g, ops, rng, sweep_chunk=None):
+def build_case(cid, g, ops, rng, sweep_chunk=None, flat=None, images=None):
     """returns (case_text, plan) where plan lists what each `res` line must show"""
-    flat = hist.Flat(g.size)
+    flat = flat or hist.Flat(g.size)
     lines = []
     plan = []   # per op index: dict(kind=..., expect=...)
     cs = g.cs
@@ -69,7 +69,10 @@ def build_case(cid, g, ops, rng, sweep_chunk=None):
     plan.append({'k': 'M', 'op': ('M',), 'after': True})
     lines.append('M')
     lines.append('reqcount')
-    text = hist.case_text(cid, g, lines)
+    if images:
+        text = 'case %s\n%s\nopt punch=%d\nopen %s\n%s\nend\n' % (cid, '\n'.join('image file ' + p for p in images), g.punch, g.params(), '\n'.join(lines))
+    else:
+        text = hist.case_text(cid, g, lines)
     return text, plan, snaps, flat
 
 
